@@ -47,7 +47,11 @@ struct Worker {
 
 fn spawn_worker(id: usize, tx: &Sender<Msg>) -> std::io::Result<(Child, ChildStdin)> {
     let exe = std::env::current_exe()?;
-    let mut child = Command::new(exe).arg("worker").stdin(Stdio::piped()).stdout(Stdio::piped()).stderr(Stdio::inherit()).spawn()?;
+    // worker stderr (abort messages of the code under test) goes to a log file, not to the check's output
+    let logdir = verif_dir().join("dst/target/run");
+    let _ = std::fs::create_dir_all(&logdir);
+    let stderr = std::fs::OpenOptions::new().create(true).append(true).open(logdir.join("workers.stderr.log")).map(Stdio::from).unwrap_or_else(|_| Stdio::null());
+    let mut child = Command::new(exe).arg("worker").env("RUST_BACKTRACE", "0").stdin(Stdio::piped()).stdout(Stdio::piped()).stderr(stderr).spawn()?;
     let stdout = child.stdout.take().unwrap();
     let stdin = child.stdin.take().unwrap();
     let tx = tx.clone();
